@@ -5,7 +5,7 @@ use crate::parser::check_generics::{CheckGenerics, GetPath};
 use crate::parser::variant_descs::VariantDescs;
 use crate::parser::{process_fields, MsgAttr, MsgType};
 use crate::utils::{extract_return_type, filter_wheres, SvCasing};
-use convert_case::{Case, Casing};
+use convert_case::Case;
 use proc_macro2::TokenStream;
 use quote::{quote, ToTokens};
 use syn::fold::Fold;
@@ -175,6 +175,18 @@ impl<'a> MsgVariant<'a> {
     }
 }
 
+/// `serde`'s `rename_all = "snake_case"` rule for enum variants.
+fn serde_snake_case(variant: &str) -> String {
+    let mut snake = String::new();
+    for (i, ch) in variant.char_indices() {
+        if i > 0 && ch.is_uppercase() {
+            snake.push('_');
+        }
+        snake.push(ch.to_ascii_lowercase());
+    }
+    snake
+}
+
 #[derive(Debug)]
 pub struct MsgVariants<'a, Generic> {
     variants: Vec<MsgVariant<'a>>,
@@ -267,10 +279,16 @@ where
             .map(|variant| variant.emit_dispatch_leg())
     }
 
+    /// Names under which the variants are (de)serialized.
+    ///
+    /// The generated enums are annotated with `#[serde(rename_all = "snake_case")]`, so the
+    /// names have to be computed with the very same rule `serde` applies to enum variants
+    /// (an underscore only in front of an uppercase letter) for the contract level message to
+    /// recognize every message its parts accept.
     pub fn as_names_snake_cased(&self) -> Vec<String> {
         self.variants
             .iter()
-            .map(|variant| variant.name.to_string().to_case(Case::Snake))
+            .map(|variant| serde_snake_case(&variant.name.to_string()))
             .collect()
     }
 
